@@ -22,6 +22,9 @@ CHECKS = {
  "C06": dict(design="3/C06", technique="exhaustive enumeration of formulas x row multisets of the training frame; differential comparison of evaluate_new_data with the training rows",
    text="Bounded exhaustive model checking on the real code: for every formula of the pool (every stateful transform alone, nested, interacting; C/T/S with options; ordered categoricals; a user-registered transform; group-specific terms) on two dtype variants of an 8-row frame, evaluate_new_data is run on every row sequence of length <= 2 (<= 3 thorough), every leave-one-level-out subset, the frame, its reverse and a triplicated frame, and must reproduce exactly the corresponding training rows for the common and group matrices.",
    note="Trusts numpy closeness at rtol 1e-9; frames containing values not in the training frame are C10's business."),
+ "C10": dict(design="3/C10", technique="exhaustive enumeration of designs x unseen-value placements x modes, plus all event histories of length <= 3 over mode changes and evaluations; expectations derived from the clean-frame evaluation",
+   text="Bounded exhaustive model checking on the real code: for every design of the pool and every placement of unseen values (every non-empty row subset of a 3-row frame per variable, variables pairwise) in each of the three modes, the common and group matrices, slices, factors_with_new_levels, warnings and exceptions are compared with expectations derived from evaluating the same frame with the unseen cells replaced by a seen level; every history of <= 3 events over {set mode x3, evaluate common, evaluate group} on one frame object checks that the mode in force at evaluation time decides; configuration keys/values outside the documented ones must be refused and leave the mode unchanged.",
+   note="Unseen groups in 'error' mode are not demanded; only UserWarnings raised from formulae's files count as formulae's warnings."),
 }
 NOT_YET = {}
 props = [json.loads(l) for l in open(os.path.join(V, "properties.jsonl"))]
